@@ -11,6 +11,8 @@ def run(chk):
     for _ in range(50 if thorough else 12):
         case = A.random_case(rng)
         case['iters'] = rng.choice([3, 10, 40, 80])
+        if _ % 3 == 1:
+            case['start'] = H.random_start(rng, case['lo'], case['hi'])
         res = O.guarded(lambda c: O.c02_steps(c, check04=False, check06=True), case)
         fails = res[0] if isinstance(res, tuple) else res
         chk.evaluations += 1
@@ -22,10 +24,28 @@ def run(chk):
     for _ in range(40 if thorough else 12):   # after Solve returned, with and without refinement
         case = A.random_case(rng)
         case['iters'] = rng.choice([20, 60, 100]); case['refine'] = rng.random() < 0.7
+        if _ % 3 == 1:
+            case['start'] = H.random_start(rng, case['lo'], case['hi'])
         fails = O.guarded(O.c06_after_solve, case)
         chk.evaluations += 1
         if fails:
             found += chk.violation('record-after-solve', fails[0], {'kind': 'after-solve', 'case': case})
+            if found > 2:
+                break
+    # objectives that fail (at given calls / on a slab of the box) while the caller goes on: the record must list exactly the evaluated trials
+    for _ in range(24 if thorough else 8):
+        case = A.random_case(rng, dims=(1, 2, 3))
+        case['iters'] = rng.choice([12, 25, 40]); case['eps'] = 1e-9
+        case['exc'] = rng.choice(['RuntimeError', 'ValueError', 'ZeroDivisionError'])
+        if _ % 2:
+            a = case['lo'][0] + (case['hi'][0] - case['lo'][0]) * rng.uniform(0.55, 0.8)
+            case['fail_region'] = [0, a, a + (case['hi'][0] - case['lo'][0]) * rng.uniform(0.05, 0.15)]
+        else:
+            case['fail_at'] = sorted(rng.sample(range(2, case['iters']), 3))
+        fails = O.guarded(O.c06_failures, case)
+        chk.evaluations += 1
+        if fails:
+            found += chk.violation('record', fails[0], {'kind': 'failures', 'case': case})
             if found > 2:
                 break
     # runs driven to the floating-point resolution of the curve coordinate (the method's own guard ends them)
@@ -49,6 +69,8 @@ def replay(chk, rp):
         res = O.guarded(lambda c: O.c02_steps(c, check04=False, check06=True), rp['case'])
         fails = res[0] if isinstance(res, tuple) else res
         print(fails); return not fails
+    if rp.get('kind') == 'failures':
+        fails = O.guarded(O.c06_failures, rp['case']); print(fails); return not fails
     if rp.get('kind') == 'after-solve':
         fails = O.guarded(O.c06_after_solve, rp['case']); print(fails); return not fails
     return S.replay_lockstep(rp)
